@@ -1,12 +1,37 @@
 /-
   C07 — Sampling draws from the exact detected, heralded, post-selected distribution.
 
-  Model: LW.Model.Sampling.  Randomness is a tape of uniform variates, so every statement below is
-  for EVERY tape / every seed.  "Empirical frequencies converge to …" is the law of large numbers
-  applied to `inverseCdf_interval` (the set of variates selecting outcome k is an interval of
-  length p_k / Σp) and to the exact detector kernel; the limit statement itself is not formalised.
+  Model: LW.Model.Sampling.  Randomness is a tape of uniform variates, so every statement of the
+  first part below is for EVERY tape / every seed.
+
+  "Empirical frequencies converge to …" is formalised in the second part (LIMIT STATEMENTS) for the
+  selection step `Generator.choice` / `inverseCdf`, for the composite `sampleOne`, and (as a law, not
+  a limit) for the detector:
+  * deterministic form: on the uniform grid {0, 1/N, …, (N-1)/N} the fraction of points selecting
+    index k is within 1/N of p_k / Σp (`inverseCdf_grid_frequency`), hence converges
+    (`inverseCdf_grid_frequency_eventually`, `inverseCdf_grid_frequency_tendsto`);
+  * probabilistic form: for pairwise independent real variates, each uniform on [0,1), almost surely
+    the fraction of the first n draws selecting index k tends to p_k / Σp
+    (`sampling_frequencies_converge`, Mathlib's strong law of large numbers), and the fraction
+    returning state s under `sampleOne` tends to the total normalised weight of the entries equal to
+    s (`sampleOne_frequencies_converge`).  A real variate is almost surely irrational, so these are
+    stated for the real-valued twins `inverseCdfR` / `sampleOneR` of the model functions (same
+    recursion over ℝ), which agree with the model on rational data (`inverseCdfR_cast`,
+    `sampleOneR_cast`).
+  * detector: for a tape of independent variates uniform on [0,1) (at least as long as what the
+    detector reads), the real twin `detectorSampleR` of `detectorSample` returns the state t with
+    probability exactly the total weight of t in `detectorKernel d s` (`detectorSampleR_law`); the
+    twin agrees with the model on rational tapes (`detectorSampleR_cast`).
+  NOT formalised: a law-of-large-numbers statement for REPEATED detector calls (frequencies of
+  detected states over many independent tapes; it would follow from `detectorSampleR_law` and the
+  strong law once independence of functions of disjoint tape blocks is set up), and the law of the
+  accepted samples of the rejection loop `sample_N_inputs` (selection ∘ detector ∘ acceptance on one
+  running tape).  For those only the every-tape statements of the first part are proved.
 -/
 import LW.Proofs.C07
+import LW.Proofs.C07LimitGridTendsto
+import LW.Proofs.C07LimitState
+import LW.Proofs.C07LimitDetLaw
 
 namespace LW.C07
 
@@ -93,5 +118,166 @@ theorem sampleNOutputs_count (cond : List (FState × Rat)) (us : List Rat) :
     (sampleNOutputs cond us).length = us.length ∧
     (cond ≠ [] → ∀ s ∈ sampleNOutputs cond us, s ∈ cond.map (·.1)) :=
   Proofs.C07.sampleNOutputs_count cond us
+
+/-! ## LIMIT STATEMENTS -/
+
+/-! ### (A) deterministic equidistribution on the uniform grid (core `Rat`) -/
+
+/-- number of points `j / N`, `j < N`, of the uniform grid that select index `k`:
+`((List.range N).filter fun j => inverseCdf ps (j / N) = k).length`
+(defined in LW/Proofs/C07LimitGrid.lean) -/
+abbrev gridCount := Proofs.C07.gridCount
+
+/-- GRID FREQUENCY: with non-negative weights of positive total, for every valid index `k`
+(including `p_k = 0`) and every `N > 0`, the fraction of the `N` grid points selecting `k` is within
+`1 / N` of the normalised weight `p_k / Σp` -/
+theorem inverseCdf_grid_frequency (ps : List Rat) (hnn : ∀ p ∈ ps, 0 ≤ p) (htot : 0 < ps.sum)
+    (k : Nat) (hk : k < ps.length) (N : Nat) (hN : 0 < N) :
+    |(gridCount ps N k : Rat) / N - ps.getD k 0 / ps.sum| ≤ 1 / N :=
+  Proofs.C07.inverseCdf_grid_frequency ps hnn htot k hk N hN
+
+/-- … in fact strictly less than `1 / N` -/
+theorem inverseCdf_grid_frequency_lt (ps : List Rat) (hnn : ∀ p ∈ ps, 0 ≤ p) (htot : 0 < ps.sum)
+    (k : Nat) (hk : k < ps.length) (N : Nat) (hN : 0 < N) :
+    |(gridCount ps N k : Rat) / N - ps.getD k 0 / ps.sum| < 1 / N :=
+  Proofs.C07.inverseCdf_grid_frequency_lt ps hnn htot k hk N hN
+
+/-- an index of weight 0 is selected by no grid point (numpy's clipping to the last index never
+acts on `[0,1)`) -/
+theorem gridCount_eq_zero (ps : List Rat) (hnn : ∀ p ∈ ps, 0 ≤ p) (htot : 0 < ps.sum)
+    (k : Nat) (hk : k < ps.length) (hpk : ps.getD k 0 = 0) (N : Nat) : gridCount ps N k = 0 :=
+  Proofs.C07.gridCount_eq_zero ps hnn htot k hk hpk N
+
+/-- CONVERGENCE, ε–N₀ form over `Rat` -/
+theorem inverseCdf_grid_frequency_eventually (ps : List Rat) (hnn : ∀ p ∈ ps, 0 ≤ p)
+    (htot : 0 < ps.sum) (k : Nat) (hk : k < ps.length) (ε : Rat) (hε : 0 < ε) :
+    ∃ N₀ : Nat, ∀ N, N₀ ≤ N → |(gridCount ps N k : Rat) / N - ps.getD k 0 / ps.sum| < ε :=
+  Proofs.C07.inverseCdf_grid_frequency_eventually ps hnn htot k hk ε hε
+
+/-- CONVERGENCE, as a limit of real numbers -/
+theorem inverseCdf_grid_frequency_tendsto (ps : List Rat) (hnn : ∀ p ∈ ps, 0 ≤ p)
+    (htot : 0 < ps.sum) (k : Nat) (hk : k < ps.length) :
+    Filter.Tendsto (fun N : ℕ => (((gridCount ps N k : Rat) / N : Rat) : ℝ)) Filter.atTop
+      (nhds ((ps.getD k 0 / ps.sum : Rat) : ℝ)) :=
+  Proofs.C07.inverseCdf_grid_frequency_tendsto ps hnn htot k hk
+
+/-! ### (B) probabilistic form: the real twin and the strong law of large numbers -/
+
+/-- real-valued twin of `inverseCdf`: the same recursion and clipping over `ℝ`
+(LW/Proofs/C07LimitReal.lean):
+`inverseCdfR ps u = min (go u (ps.foldl (·+·) 0) ps 0 0) (ps.length - 1)` with
+`go u tot (p :: rest) acc i = if u < (acc + p) / tot then i else go u tot rest (acc + p) (i + 1)`,
+`go u tot [] acc i = i` -/
+noncomputable abbrev inverseCdfR := Proofs.C07.inverseCdfR
+
+/-- prefix sums of real weights, `cumR ps k = (ps.take k).sum` -/
+noncomputable abbrev cumR := Proofs.C07.cumR
+
+/-- AGREEMENT: on rational weights and a rational variate the real twin is the model function -/
+theorem inverseCdfR_cast (ps : List ℚ) (u : ℚ) :
+    inverseCdfR (ps.map (fun q : ℚ => (q : ℝ))) (u : ℝ) = inverseCdf ps u :=
+  Proofs.C07.inverseCdfR_cast ps u
+
+/-- INTERVAL (real form; `p_k = 0` allowed, the interval is then empty) -/
+theorem inverseCdfR_interval (ps : List ℝ) (hnn : ∀ p ∈ ps, 0 ≤ p) (htot : 0 < ps.sum)
+    (u : ℝ) (hu0 : 0 ≤ u) (hu1 : u < 1) (k : ℕ) (hk : k < ps.length) :
+    inverseCdfR ps u = k ↔ cumR ps k / ps.sum ≤ u ∧ u < cumR ps (k + 1) / ps.sum :=
+  Proofs.C07.inverseCdfR_interval ps hnn htot u hu0 hu1 k hk
+
+/-- MEASURABILITY of selection as a function of the variate (any weights) -/
+theorem measurable_inverseCdfR (ps : List ℝ) : Measurable fun u : ℝ => inverseCdfR ps u :=
+  Proofs.C07.measurable_inverseCdfR ps
+
+/-- PUSH-FORWARD: under the uniform law on `[0,1)` index `k` is selected with probability
+`p_k / Σp` -/
+theorem inverseCdfR_uniform_measure (ps : List ℝ) (hnn : ∀ p ∈ ps, 0 ≤ p) (htot : 0 < ps.sum)
+    (k : ℕ) (hk : k < ps.length) :
+    (MeasureTheory.volume.restrict (Set.Ico (0 : ℝ) 1)) {u : ℝ | inverseCdfR ps u = k} =
+      ENNReal.ofReal (ps.getD k 0 / ps.sum) :=
+  Proofs.C07.volume_inverseCdfR_eq ps hnn htot k hk
+
+/-- STRONG LAW for the selection step: if the variates `U 0, U 1, …` are pairwise independent and
+each is uniformly distributed on `[0,1)`, then almost surely the fraction of the first `n` draws
+that select index `k` tends to `p_k / Σp`.  (Mutual independence `iIndepFun U μ` implies the
+pairwise hypothesis; such a sequence exists: `Proofs.C07.ideal_tape_exists`.) -/
+theorem sampling_frequencies_converge {Ω : Type*} [MeasurableSpace Ω] {μ : MeasureTheory.Measure Ω}
+    (U : ℕ → Ω → ℝ)
+    (hindep : Pairwise fun i j => ProbabilityTheory.IndepFun (U i) (U j) μ)
+    (hlaw : ∀ i, MeasureTheory.Measure.map (U i) μ = MeasureTheory.volume.restrict (Set.Ico (0 : ℝ) 1))
+    (ps : List ℝ) (hnn : ∀ p ∈ ps, 0 ≤ p) (htot : 0 < ps.sum) (k : ℕ) (hk : k < ps.length) :
+    ∀ᵐ ω ∂μ, Filter.Tendsto
+      (fun n : ℕ =>
+        (((Finset.range n).filter fun i => inverseCdfR ps (U i ω) = k).card : ℝ) / n)
+      Filter.atTop (nhds (ps.getD k 0 / ps.sum)) :=
+  Proofs.C07.sampling_frequencies_converge U hindep hlaw ps hnn htot k hk
+
+/-- … for the model's rational weights; the limit is the exact rational normalised weight -/
+theorem sampling_frequencies_converge_rat {Ω : Type*} [MeasurableSpace Ω]
+    {μ : MeasureTheory.Measure Ω} (U : ℕ → Ω → ℝ)
+    (hindep : Pairwise fun i j => ProbabilityTheory.IndepFun (U i) (U j) μ)
+    (hlaw : ∀ i, MeasureTheory.Measure.map (U i) μ = MeasureTheory.volume.restrict (Set.Ico (0 : ℝ) 1))
+    (ps : List ℚ) (hnn : ∀ p ∈ ps, 0 ≤ p) (htot : 0 < ps.sum) (k : ℕ) (hk : k < ps.length) :
+    ∀ᵐ ω ∂μ, Filter.Tendsto
+      (fun n : ℕ =>
+        (((Finset.range n).filter fun i =>
+          inverseCdfR (ps.map (fun q : ℚ => (q : ℝ))) (U i ω) = k).card : ℝ) / n)
+      Filter.atTop (nhds ((ps.getD k 0 / ps.sum : ℚ) : ℝ)) :=
+  Proofs.C07.sampling_frequencies_converge_rat U hindep hlaw ps hnn htot k hk
+
+/-! ### (C) the composite `sampleOne` -/
+
+/-- `sampleOne` (`Sampler.sample`) returns the state at the index chosen by `inverseCdf`
+(`Generator.choice`): every distribution, every variate (model level, `Rat`) -/
+theorem sampleOne_eq (dist : List (FState × ℚ)) (u : ℚ) :
+    sampleOne dist u = (dist.getD (inverseCdf (dist.map (·.2)) u) ([], 0)).1 :=
+  Proofs.C07.sampleOne_eq dist u
+
+/-- real-valued twin of `sampleOne` (same recursion over `ℝ`, LW/Proofs/C07LimitState.lean) -/
+noncomputable abbrev sampleOneR := Proofs.C07.sampleOneR
+
+/-- AGREEMENT of `sampleOneR` with the model on rational data -/
+theorem sampleOneR_cast (dist : List (FState × ℚ)) (u : ℚ) :
+    sampleOneR (dist.map fun x => (x.1, (x.2 : ℝ))) (u : ℝ) = sampleOne dist u :=
+  Proofs.C07.sampleOneR_cast dist u
+
+/-- STRONG LAW for `sampleOne`: almost surely the fraction of the first `n` draws returning the
+state `s` tends to the total normalised weight of the entries of `dist` whose state is `s` -/
+theorem sampleOne_frequencies_converge {Ω : Type*} [MeasurableSpace Ω] {μ : MeasureTheory.Measure Ω}
+    (U : ℕ → Ω → ℝ)
+    (hindep : Pairwise fun i j => ProbabilityTheory.IndepFun (U i) (U j) μ)
+    (hlaw : ∀ i, MeasureTheory.Measure.map (U i) μ = MeasureTheory.volume.restrict (Set.Ico (0 : ℝ) 1))
+    (dist : List (FState × ℝ)) (hnn : ∀ x ∈ dist, 0 ≤ x.2) (htot : 0 < (dist.map (·.2)).sum)
+    (s : FState) :
+    ∀ᵐ ω ∂μ, Filter.Tendsto
+      (fun n : ℕ => (((Finset.range n).filter fun i => sampleOneR dist (U i ω) = s).card : ℝ) / n)
+      Filter.atTop
+      (nhds (((dist.filter fun x => decide (x.1 = s)).map (·.2)).sum / (dist.map (·.2)).sum)) :=
+  Proofs.C07.sampleOne_frequencies_converge U hindep hlaw dist hnn htot s
+
+/-! ### (C) the detector on an i.i.d. uniform tape -/
+
+/-- real-valued twin of `detectorSample`: the same program (efficiency stage, dark-count stage,
+threshold; same tape consumption) on a tape of real variates, the rational settings being compared
+as reals: `u > (d.eta : ℝ)`, `u < (d.pDark : ℝ)` (LW/Proofs/C07LimitDetG.lean) -/
+noncomputable abbrev detectorSampleR := Proofs.C07.detectorSampleR
+
+/-- AGREEMENT: on a rational tape the twin returns the model's detected state and unread tape -/
+theorem detectorSampleR_cast (d : Det) (s : FState) (tape : List ℚ) :
+    detectorSampleR d s (tape.map (fun q : ℚ => (q : ℝ))) =
+      ((detectorSample d s tape).1, (detectorSample d s tape).2.map (fun q : ℚ => (q : ℝ))) :=
+  Proofs.C07.detectorSampleR_cast d s tape
+
+/-- DETECTOR LAW: if the tape entries `V 0, V 1, …` are (mutually) independent and each uniform on
+`[0,1)`, the efficiency and the dark-count probability lie in `[0,1]`, and the detector is handed
+the first `T ≥ photons s + s.length` entries (it never reads more), then it returns the state `t`
+with probability the total weight of `t` in the exact kernel `detectorKernel d s`. -/
+theorem detectorSampleR_law {Ω : Type*} [MeasurableSpace Ω] {μ : MeasureTheory.Measure Ω}
+    (V : ℕ → Ω → ℝ) (hindep : ProbabilityTheory.iIndepFun V μ)
+    (hlaw : ∀ i, MeasureTheory.Measure.map (V i) μ = MeasureTheory.volume.restrict (Set.Ico (0 : ℝ) 1))
+    (d : Det) (h0 : 0 ≤ d.eta) (h1 : d.eta ≤ 1) (h2 : 0 ≤ d.pDark) (h3 : d.pDark ≤ 1)
+    (s : FState) (T : ℕ) (hT : photons s + s.length ≤ T) (t : FState) :
+    μ {ω | (detectorSampleR d s ((List.range T).map fun i => V i ω)).1 = t} =
+      ENNReal.ofReal (((((detectorKernel d s).filter (·.1 == t)).map (·.2)).sum : ℚ) : ℝ) :=
+  Proofs.C07.detectorSampleR_law' V hindep hlaw d h0 h1 h2 h3 s T hT t
 
 end LW.C07
